@@ -86,19 +86,24 @@ def jobs(ctx):
                 continue
             out.append(Job(pair, pair, [f1, f2], "VerifC19Recover", {"n": n}, tag="%s n=%d" % (pair, n), cost=float(T) ** n + 5, **kw))
         out.append(Job(pair, pair, [f1, f2], "VerifC19Recover", {"n": 2}, tag=pair + " twin", twin=True, **kw))
+    # the shipped JavaScript parser (hand-written parse loop, token stream with semicolon insertion, real lexer) on short sources with a free byte
+    FJ = ["-looplimit", "10000000", "-conccap", "300", "-maxinstrs", "400000000", "-termbound"]
+    for t in range(7):
+        out.append(Job("parsers/js", "js", "c19_js.go", "VerifC19Js", {"tmpl": t, "ascii": 1 if q else 0}, flags=FJ, tag="js parser tmpl=%d" % t, cost=30))
+    out.append(Job("parsers/js", "js", "c19_js.go", "VerifC19Js", {"tmpl": 4, "ascii": 1}, flags=FJ, tag="js parser twin", twin=True))
     return out
 
 
 def describe(ctx):
     return {
-        "explanation": "Grammars with 'error' rules (statement lists, nested blocks, a .recoveryScope marker, an error alternative inside a separated list) are generated by the "
+        "explanation": "(2) at the end of this text: the shipped JavaScript parser. (1) Grammars with 'error' rules (statement lists, nested blocks, a .recoveryScope marker, an error alternative inside a separated list) are generated by the "
                        "real tree twice: with their error rules (recovering parser) and without them. Both parse loops, incl. recoverFromError/skipBrokenCode/reduceAll, run on "
                        "the same symbolic token array (tokens are delivered concretely by the stub lexer, the solver enumerates them). Every path class: no panic, the run "
                        "finishes within the executor's loop caps (100000 visits per block: a cap hit makes the check inconclusive), handler offsets are non-decreasing and inside "
                        "the input, a failure is a SyntaxError that was reported; whenever the parser without error rules accepts, the recovering parser accepts too, reports "
-                       "nothing and emits the same events. Also asserted on every run (C20): reported nodes lie inside the input, are pairwise disjoint or nested, containers follow contents.",
-        "bounds": {"tokens": "n<=5 quick, n<=7 thorough over all terminals of the grammar", "grammars": "%d recovery grammars (thorough: plain, optimizeTables, fixWhitespace)" % len(RG)},
-        "outside": ["grammars outside the corpus", "invalid_token handling by real lexers", "the shipped js parser_impl.go"],
+                       "nothing and emits the same events. Also asserted on every run (C20): reported nodes lie inside the input, are pairwise disjoint or nested, containers follow contents. (2) The shipped JavaScript parser (generated tables, the hand-written parse loop and recovery of parsers/js/parser_impl.go, the token stream with semicolon insertion, the real lexer) runs on seven short sources (cascading errors, comments after declarators, inserted semicolons, valid code) in which one byte is free: no panic, termination within the step bound, handler offsets non-decreasing and inside the input, a failure is a reported SyntaxError, reported nodes inside the input, disjoint or nested, containers after contents. The byte values are enumerated by the executor through solver concretisation; each run is concrete afterwards.",
+        "bounds": {"js": "7 sources x 1 free byte (ASCII quick, all values thorough)", "tokens": "n<=5 quick, n<=7 thorough over all terminals of the grammar", "grammars": "%d recovery grammars (thorough: plain, optimizeTables, fixWhitespace)" % len(RG)},
+        "outside": ["grammars outside the corpus", "invalid_token handling by real lexers of generated corpus parsers", "js sources beyond the seven one-byte template families"],
         "trusted": ["go/ssa", "symgo executor", "z3", "stub lexer"],
         "assumptions": ["the error handler always asks to continue"],
     }
